@@ -16,6 +16,7 @@ pub fn style_from(t: &mut Tape) -> Style {
         def_values: t.chance(60),
         annotate_coparams: t.flag(),
         blocks: t.chance(50),
+        fn_as_comatch: t.chance(70),
     }
 }
 
@@ -134,12 +135,15 @@ pub fn run(ctx: &Ctx) -> Report {
          n-ary products in both groupings, recursive data, codata with arguments, higher-order functions, \
          forall over VType/CType, fix, alias/tuple/nested patterns, host operations, stdin), each printed under 3 \
          style combinations and run on a generated stdin; oracle = independent CK machine + host model on the AST; \
-         compared: stdout bytes and exit code / trap; non-trivial = ≥2 output lines and ≥2 of {codata, fix, tuple or \
+         compared: stdout bytes and exit code / trap; plus records: random nested named products (a record in first, middle and last position), values written flat / with nested literal tails / with tail variables, every field path projected in one chain or stepwise, expected = the stored integer; non-trivial = ≥2 output lines and ≥2 of {codata, fix, tuple or \
          alias pattern, call of a bound function, nested pattern, type application, thunk, redex}; distinct by source hash",
     );
     let cfg = ctx.tier.pick(Cfg::quick(), Cfg::thorough());
     let cases = ctx.tier.pick(2_500, 60_000);
     let r = run_tapes(ctx, "generated", cases, 700, |tape, stats| check_case(ctx, tape, &cfg, stats));
+    report.absorb(r);
+    let cases = ctx.tier.pick(1_200, 40_000);
+    let r = run_tapes(ctx, "records", cases, 60, |tape, stats| crate::props::records::check_records(ctx, tape, stats, false));
     report.absorb(r);
     report.assume("R-sem (harness/src/core/eval.rs) and H-model implement Levy's CBPV CK machine and the declared host contracts");
     report.assume("both machines are fuel-bounded; exhaustion is counted as inconclusive, never as agreement");
@@ -147,6 +151,9 @@ pub fn run(ctx: &Ctx) -> Report {
 }
 
 pub fn replay(ctx: &Ctx, doc: &Value) -> Result<(), Fail> {
+    if doc["stage"] == "records" {
+        return crate::props::records::replay(ctx, doc, false);
+    }
     let tape = unhex(doc["tape_hex"].as_str().unwrap_or(""));
     let mut stats = Stats::new();
     // the replay file records the tier through its tape length only; try both configurations
